@@ -187,3 +187,8 @@ Definition snap_ans (delay : nat -> nat) : sprovider := fun settled x st =>
   if Nat.ltb (asked st (xid x)) (delay (xid x)) then Postponed
   else if xnever x then Postponed
   else if forallb settled (xdeps x) then Resolved (xtgt x) else Postponed.
+
+(* providers of that kind given by a readiness predicate over the SETTLED set (what the resolvers
+   answer), e.g. "every reference it waits for is no longer pending" *)
+Definition smono_ans (ready : xref -> (nat -> bool) -> bool) : sprovider := fun settled x _ =>
+  if ready x settled then Resolved (xtgt x) else Postponed.
